@@ -159,6 +159,12 @@ def run(F, R):
         ch = [(a, b) for (a, b, tr) in sm.bool_edges(S, lambda n, t: n.ctx is cx and t[0] == "call" and t[1] in ("std::cmp::PartialEq::ne",) and FIELD in fmt_t(t)) if tr]
         ch += [(a, b) for (a, b, tr) in sm.bool_edges(S, lambda n, t: n.ctx is cx and t[0] == "call" and t[1] in ("std::cmp::PartialEq::eq",) and FIELD in fmt_t(t)) if not tr]
         wn = [n.idx for n in S.nodes if n.ctx is cx and n.idx in S.live and any(s_["k"] == "assign" and smod._chain(s_["p"])[-1:] == [FIELD] for s_ in n.block["s"])]
+        # the test that decides whether the new value is taken is (in)equality: an ordering test (`old < new`) keeps the larger
+        # of the two, so a later, shorter (or absent) interval never replaces an earlier one
+        ordt = [n for n in S.nodes if n.ctx is cx and n.idx in S.live and n.term["k"] == "call" and lib.norm(n.term.get("callee") or "") in ("std::cmp::PartialOrd::lt", "std::cmp::PartialOrd::le", "std::cmp::PartialOrd::gt", "std::cmp::PartialOrd::ge")
+                and FIELD in fmt_t(cx.bv.trace_op(n.term["args"][0])) + fmt_t(cx.bv.trace_op(n.term["args"][1]))]
+        if ordt and wn:
+            R.violation("C07-R4", "ordered-change-test", "the poll interval is replaced under an ordering test (%s) instead of `!=`: the most recent response does not always win" % lib.norm(ordt[0].term.get("callee")).split("::")[-1], ordt[0].loc())
         ys = [x for x in sm.yields(S, "ProtocolStateChange") if S.nodes[x].ctx is cx]
         commits = [x for x in sm.env(S, "Storage", "commit") if smod.descends(S.nodes[x].ctx, cx)]
         sets = [x for x in sm.env(S, "Storage") if smod.descends(S.nodes[x].ctx, cx) and S.ev[x][2] in ("set_int", "remove")]
